@@ -304,6 +304,10 @@ def check_roundtrip(res, spec):
     if not ok:
         res.count("construct-not-faithful")
         return
+    if cmp == "" and fmt in ("fasta", "phylip"):
+        # the same writer reached through the string method (no file, no explicit order): its text, read by the
+        # format's line parser, must give the same names, order and sequences
+        check_text_writer(res, obj, fmt, names, seqs, detail)
     with Scratch() as d:
         path = d / f"x.{suffix}{cmp}"
         arg = path if as_path else str(path)
@@ -367,6 +371,31 @@ def check_roundtrip(res, spec):
                 else:
                     mech = f"C06/roundtrip/{fmt}/{which}/{bad}"
                 res.witness(mech, stage=which, fmt=fmt, got_names=gnames, got_seqs=gseqs, **detail)
+
+
+def check_text_writer(res, obj, fmt, names, seqs, detail):
+    from cogent3.parse.fasta import MinimalFastaParser
+    from cogent3.parse.phylip import MinimalPhylipParser
+
+    res.evals += 1
+    try:
+        text = obj.to_fasta() if fmt == "fasta" else obj.to_phylip()
+        parser = MinimalFastaParser if fmt == "fasta" else MinimalPhylipParser
+        got = [(str(n), str(q)) for n, q in parser(text.splitlines())]
+    except Exception as e:  # noqa: BLE001
+        if fmt == "fasta" and any(">" in n for n in names):
+            res.witness(F13, stage="to_fasta", error=repr(e)[:300], **detail)
+        else:
+            res.witness(exc_mechanism(f"C06/to_{fmt}-text", e), error=repr(e)[:300], **detail)
+        return
+    res.count(f"decided:to_{fmt}-text")
+    gnames = [n for n, _ in got]
+    bad = names_ok(fmt, names, gnames)
+    if bad is None and [q for _, q in got] != seqs:
+        bad = "seqs-differ"
+    if bad:
+        mech = F13 if fmt == "fasta" and any(">" in n for n in names) and bad != "seqs-differ" else f"C06/roundtrip/{fmt}/to_{fmt}-text/{bad}"
+        res.witness(mech, stage=f"to_{fmt}", fmt=fmt, got_names=gnames, got_seqs=[q for _, q in got], **detail)
 
 
 def roundtrip_batch(res, case):
